@@ -19,7 +19,7 @@ use vcore::{compile, Check, Labels, Outcome, Project, Stats, Step, Tape, Tier, V
 pub struct C18;
 pub const CHECK: C18 = C18;
 pub fn plan(t: Tier) -> vcore::Plan {
-    vcore::Plan::new(t.pick(4_000, 80_000), 640)
+    vcore::Plan::new(t.pick(24_000, 600_000), 640)
 }
 
 // ---------------------------------------------------------------------------------------------------
@@ -530,6 +530,18 @@ impl Check for C18 {
                     Step::Skip
                 }
             }
+            2 | 3 => {
+                // simplest element / key type: int, then str (keys renamed, operations keep their indices)
+                let ty = if i == 2 { Ty::Int } else { Ty::Str };
+                if case.elem == Ty::Int || case.elem == ty || case.universe.len() > 8 {
+                    return Step::Skip;
+                }
+                let mut c = case.clone();
+                const NAMES: [&str; 8] = ["a", "b", "ab", "ba", "aa", "bb", "aab", "abb"];
+                c.universe = (0..case.universe.len()).map(|k| if ty == Ty::Int { Val::Int(k as i64) } else { Val::Str(NAMES[k].to_string()) }).collect();
+                c.elem = ty;
+                fin(c)
+            }
             _ => Step::End,
         }
     }
@@ -773,6 +785,8 @@ fn shrink_val(v: &Val) -> Option<Val> {
         Val::Str(s) => {
             if s.is_empty() {
                 None
+            } else if s.len() > 1 && s != "a" && !s.contains(|c| c != 'a') {
+                Some(Val::Str("a".into()))
             } else {
                 let mut t = s.clone();
                 t.pop();
